@@ -10,6 +10,7 @@ from .. import tables
 from ..tables import Atom
 from . import cmpcore
 from .c19_norm import normalise
+from .c19_site import r5
 
 UNIVERSAL = 'mesonbuild/utils/universal.py'
 
@@ -24,10 +25,16 @@ EXPLANATION = (
     'All tables are extracted after a syntactic normalisation (c19_norm: tail duplication + forward substitution of locals by their '
     'reaching definition), so early returns vs. if/elif with a result variable, named sub-conditions, hoisted attribute reads and '
     'renamed locals give the same rows; a constant module-level dict {operator.X: lambda v: Range(..)} is folded and read arm by arm. '
+    'R2 also: every ranking key is the kind, the component itself or the field length - a projection (e.g. .lower()) that __eq__/__hash__ do not '
+    'apply makes <, ==, > inconsistent and is a violation; '
+    'R5 (interpreterbase.py, if-clause narrowing): by origin, the receiver of Range.always is the project range read from project_meson_versions[..] '
+    'and its argument the condition range self.tmp_meson_version (through locals and one level of private helpers), the value stored for the branch is '
+    'their intersection, and the saved range is stored back on every CFG path out of the branch and before the table is read again. '
+    'R5 does NOT model exceptions raised by statements outside any try (sa.cfg has exception edges only inside try), nor writers of tmp_meson_version in other modules. '
     'Does NOT decide the order axioms on concrete version strings (tokenisation is run-time); a local whose definition may have been '
     'invalidated before its use, and range expressions that are not chains of Range(..)/.intersect(..), end Undecided.')
 TECHNIQUE = ('decision tables by path enumeration over canonical atoms + world enumeration, after tail duplication and copy propagation of '
-             'locals; symbolic comparison of row outcomes/effects; constant folding of a dispatch table')
+             'locals; symbolic comparison of row outcomes/effects; constant folding of a dispatch table; def-use roles of call-site operands + CFG must-pass-through')
 ASSUMPTIONS = ['operator.lt/gt/le/ge/eq/ne and Python tuple/int/str comparison behave as documented',
                'dataclasses generates __eq__ for Range over all five fields']
 
@@ -45,8 +52,16 @@ def r2(ctx: RuleCtx) -> None:
     mod = ctx.repo.module(UNIVERSAL)
     keys = cmpcore.ranking_keys(ctx, mod, 'Version', '__cmp')
     want = [('isinstance(@, int)', 'asc'), ('@', 'asc'), ('len(@)', 'asc')]
-    ctx.require(keys == want, f'Version ranking keys {keys}', mod, 'Version.__cmp', 'ranking keys',
-                f'ranking keys are {keys}; reference (kind: int above str, value ascending, longer is greater) is {want}')
+    # ==, < and > describe one relation only if "all ranking keys equal" is the same as __eq__ (R1: __eq__/__hash__ compare the raw
+    # field): a component may be ranked by its kind, by itself and by the length of the field, never through another projection
+    foreign = [k for k, _ in keys if k not in {w for w, _ in want}]
+    if foreign:
+        ctx.violation(mod, 'Version.__cmp', 'projection not applied by __eq__', f'the comparison core ranks components through {foreign} but __eq__/__ne__/__hash__ '
+                      f'compare the raw components: unless that projection is one-to-one, for two versions that differ only under {foreign[0]} neither <, == nor > holds (<= and >= both hold); '
+                      f'in any case the order is no longer [kind, value, length]')
+    else:
+        ctx.require(keys == want, f'Version ranking keys {keys}', mod, 'Version.__cmp', 'ranking keys',
+                    f'ranking keys are {keys}; reference (kind: int above str, value ascending, longer is greater) is {want}')
     # tokens: digits become int, letters stay str; nothing else is a component
     fn = mod.func('Version.__init__')
     rx = ctx.repo.module(UNIVERSAL).assign_value('_VERSION_TOK_RE')
@@ -670,4 +685,5 @@ RULES = [
     Rule('C19.R4b', 'Range.__post_init__ emptiness table', r4_post_init),
     Rule('C19.R4c', 'Range._intersect_min/_max/intersect/always tables', r4_intersect),
     Rule('C19.R4d', 'version_check_to_range operator table', r4_check_to_range),
+    Rule('C19.R5', 'if-clause narrowing: always() receiver/argument roles, narrowed range stored, saved range restored on every path', r5),
 ]
